@@ -8,6 +8,9 @@ sys.path.insert(0, HERE)
 import props
 
 ids = [json.loads(l)["id"] for l in open(os.path.join(VERIF, "properties.jsonl"))]
+# only checks that were accepted by the coordinator (silent on the unchanged tree, calibrated) are claimed
+enabled = set(open(os.path.join(HERE, "enabled.txt")).read().split())
+props.PROPS = {k: v for k, v in props.PROPS.items() if k in enabled}
 na_reasons = json.load(open(os.path.join(HERE, "not_applicable.json")))
 hooks = json.load(open(os.path.join(HERE, "hooks.json")))
 checks = []
